@@ -6,9 +6,9 @@
 (* dimensions leave their base value:                                      *)
 (*   ImplValid    the assembled document is ValidTree (DSP0203 table)      *)
 (*   ImplHeaders  CIMMethod / CIMObject agree with the body                *)
-(* Variant = "fixed" must pass; "code" (the pinned tree) is expected to    *)
-(* fail on ExportIndication with an instance that carries a path; the      *)
-(* regression variants must fail.  With Emit = TRUE the same run prints    *)
+(* Variant = {} (repaired design) must pass; Variant = Pinned (the tree as *)
+(* originally pinned) is expected to fail (ExportIndication with a path,   *)
+(* SCOPE ANY, real keys in CIMObject); the regression flags must fail.  With Emit = TRUE the same run prints    *)
 (* the cases as JSON for the harness (the WireOps_Gen role).               *)
 (***************************************************************************)
 EXTENDS WireOpsImplOps, Json
@@ -36,7 +36,7 @@ ImplReqOk == Fails(InitState, AsEvent(R)) = {}
 
 EmitInv == Emit => PrintT(<<"CASE", ToJson(c)>>)
 
-ASSUME Variant \in Variants
+ASSUME Variant \subseteq Flags
 ASSUME PrintT(<<"OPTABLE", ToJson(OpTable)>>)
 ASSUME PrintT(<<"ITERTARGET", ToJson(IterTarget)>>)
 =============================================================================
